@@ -46,6 +46,9 @@ func c17Leaf(k int) ast.Node {
 		k := verifString(1)
 		verifAssume(k[0] < 0x80)
 		return &ast.MapLiteralNode{Items: map[string]ast.Node{k: &ast.IntNode{Value: 1}, "zz": &ast.IntNode{Value: 2}}}
+	case 19:
+		fs := []float64{1e19, -2e19, 1e20, 9.223372036854775808e18, 1.8446744073709552e19, 123456789012.0, 1e15, 1e16, 0.1, 1e-7, 1e-5, 1.7976931348623157e308, 5e-324, 100.0, 1e22, 3.0e10}
+		return &ast.FloatNode{Value: fs[verifChoose(len(fs))]}
 	case 16:
 		return &ast.ListLiteralNode{}
 	case 17:
